@@ -8,7 +8,8 @@
    final state has err = true when a C++ assertion would have failed. decide is the recursive first-match
    evaluation over the values of the leaves. Hypotheses: tree_ok (all rules have actions or none),
    wf_node (a NotNode has its operand), explicit_actions (configured actions are not "implicit") hold for
-   every tree the configuration code can build; NoDup: each leaf ACL object occurs once in the tree. *)
+   every tree the configuration code can build; shared_leaves_sync: a leaf ACL object that is used at several
+   places of the tree is synchronous (leaves that may start lookups occur once; NoDup leaf ids suffices). *)
 Require Import SquidV.Bytes SquidV.AcltreeModel SquidV.AcltreeProofs.
 Local Open Scope N_scope.
 
@@ -18,7 +19,7 @@ Local Open Scope N_scope.
    really go asynchronous, retrying leaves and the async-loop allowance are all covered by leaf_value. *)
 Theorem C44_nonblocking_first_match : forall t bans tbl,
   tree_ok t = true -> forallb wf_node (rules t) = true -> explicit_actions t = true ->
-  NoDup (tree_leaf_ids t) ->
+  shared_leaves_sync t tbl ->
   exists c a, run_check MNonBlocking t bans tbl = Some c /\ err c = false /\ cbk c = Some a /\
     result a = decide MNonBlocking (fun i => leaf_value true (lookup_script tbl i)) t bans.
 Proof. exact nonblocking_first_match. Qed.
@@ -27,7 +28,7 @@ Proof. exact nonblocking_first_match. Qed.
 Theorem C44_fast_first_match : forall m t bans tbl,
   m <> MNonBlocking ->
   tree_ok t = true -> forallb wf_node (rules t) = true -> explicit_actions t = true ->
-  NoDup (tree_leaf_ids t) ->
+  shared_leaves_sync t tbl ->
   exists c, run_check m t bans tbl = Some c /\ err c = false /\
     result (ans c) = decide m (fun i => leaf_value false (lookup_script tbl i)) t bans.
 Proof. exact fast_first_match. Qed.
@@ -36,7 +37,7 @@ Proof. exact fast_first_match. Qed.
    first-match evaluation over the plain truth values of the leaves. *)
 Theorem C44_async_lookups_invisible : forall t bans tbl,
   tree_ok t = true -> forallb wf_node (rules t) = true -> explicit_actions t = true ->
-  NoDup (tree_leaf_ids t) ->
+  shared_leaves_sync t tbl ->
   (forall i, In i (tree_leaf_ids t) -> forallb is_real (attempts (lookup_script tbl i)) = true) ->
   exists c a, run_check MNonBlocking t bans tbl = Some c /\ err c = false /\ cbk c = Some a /\
     result a = decide MNonBlocking (fun i => truth (lookup_script tbl i)) t bans.
@@ -45,7 +46,7 @@ Proof. exact nonblocking_async_invisible. Qed.
 (* Two schedules that differ only in which leaves go asynchronous, and how often, give the same decision. *)
 Theorem C44_schedule_independent : forall t bans tbl tbl',
   tree_ok t = true -> forallb wf_node (rules t) = true -> explicit_actions t = true ->
-  NoDup (tree_leaf_ids t) ->
+  shared_leaves_sync t tbl -> shared_leaves_sync t tbl' ->
   (forall i, In i (tree_leaf_ids t) ->
      truth (lookup_script tbl i) = truth (lookup_script tbl' i) /\
      forallb is_real (attempts (lookup_script tbl i)) = true /\
@@ -58,7 +59,7 @@ Proof. exact schedule_independent. Qed.
 Theorem C44_fast_sync_truth : forall m t bans tbl,
   m <> MNonBlocking ->
   tree_ok t = true -> forallb wf_node (rules t) = true -> explicit_actions t = true ->
-  NoDup (tree_leaf_ids t) ->
+  shared_leaves_sync t tbl ->
   (forall i, In i (tree_leaf_ids t) -> attempts (lookup_script tbl i) = []) ->
   exists c, run_check m t bans tbl = Some c /\ err c = false /\
     result (ans c) = decide m (fun i => truth (lookup_script tbl i)) t bans.
@@ -91,11 +92,18 @@ Theorem C44_empty_list_is_dunno : forall i bans tbl,
     result a = (Dunno, 0, true).
 Proof. exact empty_list_is_dunno. Qed.
 
+(* hypotheses that are easy to check *)
+Theorem C44_distinct_leaves_suffice : forall t tbl, NoDup (tree_leaf_ids t) -> shared_leaves_sync t tbl.
+Proof. exact NoDup_shared_leaves_sync. Qed.
+
+Theorem C44_shared_leaves_checkable : forall t tbl, shared_leaves_sync_b t tbl = true -> shared_leaves_sync t tbl.
+Proof. exact shared_leaves_check. Qed.
+
 (* ---------- non-vacuity: concrete instances ---------- *)
-(* http_access allow A !B ; http_access deny any-of(C, D): A needs two lookups, B one, D one that does not
-   really go async *)
+(* http_access allow A !B C ; http_access deny any-of(C, D): A needs two lookups, B one, D one that does not
+   really go async; the synchronous C is shared by both rules *)
 Definition ex_tree : tree :=
-  mkTree 1 [Inner 2 KAnd [Leaf 10; Inner 3 KNot [Leaf 11]]; Inner 4 KAnd [Inner 5 KAnyOf [Leaf 12; Leaf 13]]]
+  mkTree 1 [Inner 2 KAnd [Leaf 10; Inner 3 KNot [Leaf 11]; Leaf 12]; Inner 4 KAnd [Inner 5 KAnyOf [Leaf 12; Leaf 13]]]
          [action Allowed 0; action Denied 0].
 Definition ex_tbl : list (N * lscript) :=
   [(10, mkScript true false [Real; Real]); (11, mkScript true false [Real]);
@@ -103,10 +111,9 @@ Definition ex_tbl : list (N * lscript) :=
 
 Example C44_example_hypotheses :
   tree_ok ex_tree = true /\ forallb wf_node (rules ex_tree) = true /\ explicit_actions ex_tree = true /\
-  NoDup (tree_leaf_ids ex_tree).
+  shared_leaves_sync ex_tree ex_tbl.
 Proof.
-  repeat split; try reflexivity. cbn.
-  repeat (constructor; [cbn; intros H; repeat (destruct H as [H|H]; [discriminate|]); exact H|]). constructor.
+  repeat split; try reflexivity. apply shared_leaves_check. vm_compute. reflexivity.
 Qed.
 
 Example C44_example_run :
@@ -130,3 +137,5 @@ Print Assumptions C44_schedule_independent.
 Print Assumptions C44_fast_sync_truth.
 Print Assumptions C44_decide_is_first_match.
 Print Assumptions C44_empty_list_is_dunno.
+Print Assumptions C44_distinct_leaves_suffice.
+Print Assumptions C44_shared_leaves_checkable.
